@@ -282,7 +282,7 @@ func (g *generator) generateFlow(file *file, f *flow, w io.Writer, addImports ma
 		// Get the expression's End position and find the associated line.
 		endPos := g.fset.Position(f.End())
 		// -1 because this is a line above the closing }().
-		fmt.Fprintf(w, "/*line %v:%d*/", filepath.Base(f.PosInfo.File), endPos.Line-1)
+		fmt.Fprintf(w, "/*line %v:%d*/", filepath.Base(f.PosInfo.File), lineAbove(endPos))
 	}
 
 	if _, err := io.WriteString(w, "}()"); err != nil {
@@ -469,6 +469,16 @@ func (p *exprPrinter) printExpr(e ast.Expr) string {
 	// "//line file:N" comment resets the line and drops the column).
 	pos := p.g.fset.PositionFor(e.Pos(), false)
 	return fmt.Sprintf("_%d_%d", pos.Line, pos.Column)
+}
+
+// lineAbove reports the line above pos for use in a line directive. Line
+// directives in the source may place pos on line 1 of the file they name;
+// line numbers start at 1.
+func lineAbove(pos token.Position) int {
+	if pos.Line > 1 {
+		return pos.Line - 1
+	}
+	return 1
 }
 
 // printLineDir prints a line directive for an ast.Expr. It looks up the
